@@ -32,6 +32,9 @@ class CallMixin:
                     return VInt(c)
                 if isinstance(c, str):
                     return VStr(c)
+                # a module-level tuple of plain constants (e.g. a table of operator spellings)
+                if isinstance(c, tuple) and all(isinstance(x, (bool, int, str)) for x in c):
+                    return VTup([VBool(x) if isinstance(x, bool) else VInt(x) if isinstance(x, int) else VStr(x) for x in c])
             # function or class defined in the module
             try:
                 ex = extract.find(mod, name)
